@@ -38,8 +38,8 @@ PROPS = {
     },
     "C11": {
         "suites": [("fmap", 150, 1000), ("forest", 300, 6000)],
-        "proved_scope": "for every forest satisfying Forest.Inv and every live element e, with abs k f e = the (key, payload) list of the attribute / namespace children the adapters select and omInsert / omRemove / omClear / omModify the insertion-ordered reference map (Model/FmapSpec.lean): C11_refine_insert (insert = set_attribute / set_namespace: abs becomes omInsert, outcome ok) + C11_insert_nodes (existing key keeps every entry node, position and handle; new key = fresh node last); C11_refine_remove; C11_refine_clear; C11_refine_insert_node (append_attribute_node / append_namespace_node / any_append of a detached entry node: omInsert; key present: the existing node keeps place and handle, takes the value and is returned, the passed node stays parentless with its value; key absent: the node becomes the last entry) + C11_any_append_entry + C11_append_own_node (appending a node that already is an entry of this view is the identity); C11_refine_remove_node (remove(node) of an entry node is remove(key); detach(node) is omRemove and leaves the node parentless); C11_other_view_untouched (content and nodes of the other view); C11_children_untouched / _node (frame: the new forest is the old one with only e's child list replaced, and in it every non-entry of view k, i.e. normal children and the other view's nodes, is the same in the same order); C11_unique_keys (both views of every node); C11_reference_is_a_map (reference map sanity: keys stay distinct, lookups after updates, omRemove = filter); C11_reads (get_node / get / contains_key / len / is_empty / keys / values / nodes = the reference reads, no hypothesis); C11_histories (induction over lists of MapOp = insert / remove / clear / fresh-node append on both views of one element: no step fails or panics, each view = specOps of its own steps, keys stay distinct, Forest.Inv holds again) + C11_step; C11_preserves_inv (insert, remove, clear, append of a detached entry node, detach of an entry node preserve the whole Forest.Inv); entry API modelled in Model/FmapEntry.lean as the Rust compositions of get / get_mut / insert / remove with their unwraps: C11_entry_or_insert, C11_entry_or_default, C11_entry_and_modify, C11_entry_and_modify_or_insert, C11_entry_insert_remove (occupied insert / remove, vacant insert), C11_get_mut: reference-map meaning, never panic, other view untouched; C11_order ((HTree.erase t).nsDecls / .attrs, the lists gen_outputs iterates, are exactly abs in order, no hypothesis). Agreement of the read-only and the mutable Rust view with the model's single definition, and with an independent Vec-of-pairs reference map fed the same updates (every accessor of both views, node identity included; to_string order), is checked on the implementation after every step of every fmap history, exhaustively for all histories of 5 steps over 3 keys",
-        "not_proved": "append_*_node / any_append of an entry node that is still attached to ANOTHER element (the node moves; modelled and covered by the fmap correspondence histories and the reference-map oracle, no theorem); C11_views_agree as a theorem is vacuous in the model (one definition of the view content; the two Rust copies are compared by the harness); the serialisation clause beyond C11_order (that the serializers emit the Output stream of gen_outputs in that order) belongs to the output layer; to_vec / to_hashmap / iter are the same list as keys zipped with values in the model and are compared on the implementation only",
+        "proved_scope": "for every forest satisfying Forest.Inv and every live element e, with abs k f e = the (key, payload) list of the attribute / namespace children the adapters select and omInsert / omRemove / omClear / omModify the insertion-ordered reference map (Model/FmapSpec.lean): C11_refine_insert (insert = set_attribute / set_namespace: abs becomes omInsert, outcome ok) + C11_insert_nodes (existing key keeps every entry node, position and handle; new key = fresh node last); C11_refine_remove; C11_refine_clear; C11_refine_insert_node (append_attribute_node / append_namespace_node / any_append of a detached entry node: omInsert; key present: the existing node keeps place and handle, takes the value and is returned, the passed node stays parentless with its value; key absent: the node becomes the last entry) + C11_any_append_entry + C11_append_own_node (appending a node that already is an entry of this view is the identity); C11_insert_node_existing_key (any live entry node, detached or attached anywhere, whose key the view has: only the existing node's value changes); C11_move_node (append of an entry node still attached to another element e2, key absent in e: e gains the entry last carried by the same node, e2's view becomes omRemove, other views untouched, Forest.Inv kept); C11_refine_remove_node (remove(node) of an entry node is remove(key); detach(node) is omRemove and leaves the node parentless); C11_other_view_untouched (content and nodes of the other view); C11_children_untouched / _node (frame: the new forest is the old one with only e's child list replaced, and in it every non-entry of view k, i.e. normal children and the other view's nodes, is the same in the same order); C11_unique_keys (both views of every node); C11_reference_is_a_map (reference map sanity: keys stay distinct, lookups after updates, omRemove = filter); C11_reads (get_node / get / contains_key / len / is_empty / keys / values / nodes = the reference reads, no hypothesis); C11_histories (induction over lists of MapOp = insert / remove / clear / fresh-node append on both views of one element: no step fails or panics, each view = specOps of its own steps, keys stay distinct, Forest.Inv holds again) + C11_step; C11_preserves_inv (insert, remove, clear, append of a detached entry node, detach of an entry node preserve the whole Forest.Inv); entry API modelled in Model/FmapEntry.lean as the Rust compositions of get / get_mut / insert / remove with their unwraps: C11_entry_or_insert, C11_entry_or_default, C11_entry_and_modify, C11_entry_and_modify_or_insert, C11_entry_insert_remove (occupied insert / remove, vacant insert), C11_get_mut: reference-map meaning, never panic, other view untouched; C11_order ((HTree.erase t).nsDecls / .attrs, the lists gen_outputs iterates, are exactly abs in order, no hypothesis). Agreement of the read-only and the mutable Rust view with the model's single definition, and with an independent Vec-of-pairs reference map fed the same updates (every accessor of both views, node identity included; to_string order), is checked on the implementation after every step of every fmap history, exhaustively for all histories of 5 steps over 3 keys",
+        "not_proved": "C11_histories quantifies over MapOp histories (insert / remove / clear / fresh-node append on one element); the other updates (entry API, get_mut, detach / remove / move of entry nodes) are proved as single steps that preserve Forest.Inv and so chain, but are not constructors of MapOp; C11_views_agree as a theorem is vacuous in the model (one definition of the view content; the two Rust copies are compared by the harness); the serialisation clause beyond C11_order (that the serializers emit the Output stream of gen_outputs in that order) belongs to the output layer; to_vec / to_hashmap / iter are the same list as keys zipped with values in the model and are compared on the implementation only",
         "modelled": EXTERNAL,
         "assumptions": ["arguments are live handles", "the value given to a view has that view's kind (k.matches): the Rust API enforces it by types"],
     },
